@@ -62,14 +62,20 @@ def gen_case(streams, tier):
         'cycles': gen.gen_inputs(streams['inputs'], script, ncyc),
         'state_seed': g.getrandbits(32),
         'wb': g.choice(['dut', 'other']),
+        # a gate-level pass is first refused on another, unsynthesized block (it contains '+');
+        # the passes then run on the design through the implicit working block
+        'refused_elsewhere': g.random() < 0.25,
         'sched': world.gen_sched(streams, with_iter=False),
     }
 
 
-def apply_pass(name, blk):
+def apply_pass(name, blk, implicit=False):
     from pyrtl import passes
     with transforms.quiet():
-        getattr(passes, name)(block=blk)
+        if implicit:
+            getattr(passes, name)()          # the working block, which is blk
+        else:
+            getattr(passes, name)(block=blk)
 
 
 def eligible_output_wires(blk):
@@ -159,6 +165,24 @@ def run(case, res):
     rng = random.Random(case['state_seed'])
     tape = case['cycles']
     tags0 = [case['kind']]
+    implicit = False
+    if case.get('refused_elsewhere') and case['wb'] != 'other':
+        from pyrtl import passes
+        aux = pyrtl.Block()
+        with pyrtl.set_working_block(aux, no_sanity_check=True):
+            xa, xb = pyrtl.Input(3, 'xa'), pyrtl.Input(3, 'xb')
+            xo = pyrtl.Output(4, 'xo')
+            xg = pyrtl.Output(3, 'xg')
+            xo <<= xa + xb
+            xg <<= (xa & xb) | (xa ^ xb)
+        for nm in ('nand_synth', 'and_inverter_synth'):
+            try:
+                with transforms.quiet():
+                    getattr(passes, nm)(block=aux)
+            except pyrtl.PyrtlError:
+                res.faults.hit('pass_refused_on_another_block')
+        implicit = True
+        tags0 = tags0 + ['after_refusal_elsewhere']
     for pi, pname in enumerate(case['passes']):
         nl_a, live_a = transforms.block_netlist(blk)
         sig_a = transforms.io_signature(blk)
@@ -167,7 +191,7 @@ def run(case, res):
         _shape_probes(blk, res)
         pre_dco = eligible_output_wires(blk) if pname == 'direct_connect_outputs' else None
         try:
-            apply_pass(pname, blk)
+            apply_pass(pname, blk, implicit)
         except Exception as e:
             return Violation('pass', 'raises', {'pass': pname, 'index': pi, 'exc': repr(e)[:400]}, tags)
         res.log.log('pass', pname, pi, len(blk.logic))
@@ -232,6 +256,10 @@ def _shape_probes(blk, res):
 
 
 def candidates(case):
+    if case.get('refused_elsewhere'):
+        c = copy.deepcopy(case)
+        c['refused_elsewhere'] = False
+        yield c
     for i in range(len(case['passes'])):
         if len(case['passes']) > 1:
             c = copy.deepcopy(case)
